@@ -164,8 +164,10 @@ fn predict_with(items: &[Item], is_ws: fn(char) -> bool) -> String {
 }
 
 const WS: [&str; 5] = [" ", "\t", "\n", "\r", "\r\n"];
-const TEXT_ATOMS: [&str; 22] = [
+const TEXT_ATOMS: [&str; 27] = [
     "a", "B", "é", "👍", "\u{a0}", "\u{3000}", "{", "}", "%", "'", "\"", "-", "|", "x y", " ", "\t", "\n", "\r\n", "}}", "%}", "-}", "e\u{301}",
+    // invisible / exotic characters that are text, not trimmable whitespace
+    "\u{feff}", "\u{200b}", "\u{2028}", "\u{85}", "\u{b}",
 ];
 
 fn ws_run(r: &mut Rng) -> String {
